@@ -9,7 +9,7 @@ import (
 func ZZC15TokenRange(layout string) {
 	line := zzvrt.Int("line", 1, 1<<40)
 	col := zzvrt.Int("col", 0, 1<<40)
-	tk := &zzTok{text: zzUTF8("t", layout), line: line, col: col, index: 3}
+	tk := (&zzTok{text: zzUTF8("t", layout), line: line, col: col, index: 3}).zzPlace(zzvrt.Int("start", 0, 1<<40), len(layout))
 	r := tokenToRange(tk)
 	zzvrt.Assert(zzvrt.And(r.Start.Line == line-1, r.Start.Character == col), "C15:token-range-starts-at-token")
 	zzvrt.Assert(r.End.Line == line-1, "C15:token-range-on-one-line")
@@ -21,15 +21,17 @@ func ZZC15TokenRange(layout string) {
 func ZZC15CtxRange(layoutA, layoutB, sameLine string) {
 	lineA := zzvrt.Int("lineA", 1, 1<<40)
 	colA := zzvrt.Int("colA", 0, 1<<40)
-	a := &zzTok{text: zzUTF8("a", layoutA), line: lineA, col: colA, index: 1}
+	startA := zzvrt.Int("startA", 0, 1<<40)
+	a := (&zzTok{text: zzUTF8("a", layoutA), line: lineA, col: colA, index: 1}).zzPlace(startA, len(layoutA))
 	var b *zzTok
 	if sameLine == "1" {
 		gap := zzvrt.Int("gap", 0, 1<<20)
-		b = &zzTok{text: zzUTF8("b", layoutB), line: lineA, col: colA + len(layoutA) + gap, index: 2}
+		b = (&zzTok{text: zzUTF8("b", layoutB), line: lineA, col: colA + len(layoutA) + gap, index: 2}).zzPlace(startA+len(layoutA)+gap, len(layoutB))
 	} else {
 		dl := zzvrt.Int("dl", 1, 1<<20)
 		colB := zzvrt.Int("colB", 0, 1<<40)
-		b = &zzTok{text: zzUTF8("b", layoutB), line: lineA + dl, col: colB, index: 2}
+		// at least one newline per line break and colB characters lie between the two tokens
+		b = (&zzTok{text: zzUTF8("b", layoutB), line: lineA + dl, col: colB, index: 2}).zzPlace(startA+len(layoutA)+dl+colB+zzvrt.Int("between", 0, 1<<20), len(layoutB))
 	}
 	r := ctxToRange(&zzRuleCtx{start: a, stop: b})
 	zzvrt.Assert(zzvrt.And(r.Start.Line == lineA-1, r.Start.Character == colA), "C15:construct-range-starts-at-first-token")
